@@ -12,7 +12,8 @@ def paramsOf : String → Option Params
   | "nackgen" => some { hasLoop := true, emits := .remoteGap }
   | "twcc" => some { hasLoop := true, readHandoff := true }
   | "rfc8888" => some { hasLoop := true, readHandoff := true }
-  | "nackresp" | "twcchdr" | "rtpfb" | "stats" | "dumps" | "dumpr" | "flexfec" | "jitter"
+  | "nackresp" => some { hasLoop := false, resendsOnNack := true }
+  | "twcchdr" | "rtpfb" | "stats" | "dumps" | "dumpr" | "flexfec" | "jitter"
   | "pacing" | "ccgcc" => some { hasLoop := false }
   | _ => none
 
@@ -56,6 +57,19 @@ def stepL (d : DSt) (ts : List String) : DSt × List String :=
     | "ur" => run unbindRemote
     | "w" => run write
     | "r" => run read
+    | "nackgateclose" =>
+      -- a retransmission is inside a gated downstream Write while Close runs: Close waits for it
+      let (s1, o1) := rtcpRead s
+      if o1 == .unbound then (d, ["unbound"]) else
+      let inflight := if s.p.resendsOnNack && s.writers.contains ((getNat fs "ssrc").getD 0) then 1 else 0
+      let (s2, _) := close s1
+      ({ st := some s2, closedByOp := true }, [s!"inflight {inflight} close-waited true"])
+    | "nackclose" =>
+      -- an RTCP read immediately followed by Close in one goroutine
+      let (s1, o1) := rtcpRead s
+      if o1 == .unbound then (d, ["unbound"]) else
+      let (s2, o2) := close s1
+      ({ st := some s2, closedByOp := true }, [showOutcome o2])
     | "adv" =>
       match getNat fs "ms" with
       | some ms =>
@@ -69,12 +83,12 @@ def stepL (d : DSt) (ts : List String) : DSt × List String :=
 /-- end of a case: what the harness prints after the last op. -/
 def finish (d : DSt) : List String :=
   match d.st with
-  | none => ["end clean"]
+  | none => ["tail -", "afterclose -", "late-rtp 0", "blocked 0", "end clean"]
   | some s =>
     let (s1, l1) := flushLine "tail" s
     let (s2, closeLine) := if d.closedByOp then (s1, []) else ((close s1).1, ["ret"])
     let (s3, l3) := flushLine "afterclose" (advance s2 30)
-    [l1] ++ closeLine ++ [l3, s!"blocked {s3.blocked}",
+    [l1] ++ closeLine ++ [l3, "late-rtp 0", s!"blocked {s3.blocked}",
       if s3.waiting.isEmpty then "end clean" else "end stuck-goroutines"]
 
 /-- the lifecycle driver needs an end-of-case hook: ops end with an explicit `end` line. -/
